@@ -1,6 +1,6 @@
 ------------------------------ MODULE MCStoreI ------------------------------
 EXTENDS StoreI
-MkOpt(w, d, i, v) == [whole |-> w, dup |-> d, ident |-> i, v1 |-> v, maxcid |-> 64, dpad |-> 0, ipad |-> 0, codec |-> "mh"]
+MkOpt(w, d, i, v) == [whole |-> w, dup |-> d, ident |-> i, v1 |-> v, maxcid |-> 64, maxsec |-> 0, dpad |-> 0, ipad |-> 0, codec |-> "mh"]
 IOpts == { MkOpt(w, d, i, v) : w \in BOOLEAN, d \in BOOLEAN, i \in BOOLEAN, v \in BOOLEAN }
 IRoots == { <<"b1">> }
 IPuts == {"b1", "b2", "b3", "b5", "b7", "b8", "b11"}
